@@ -281,7 +281,12 @@ class Environment:
         """
         try:
             nodes = self._parse(source)
-        except (LiquidSyntaxError, TemplateInheritanceError, BlockNestingError) as err:
+        except (
+            LiquidSyntaxError,
+            TemplateInheritanceError,
+            BlockNestingError,
+            ContextDepthError,
+        ) as err:
             err.template_name = path
             raise err
         except RecursionError as err:
